@@ -107,7 +107,7 @@ func tryReplay(p *Program, o *Obl, repo string) (string, bool) {
 		}
 	}
 	// locate parameter constants in the encoding
-	var enc *Enc = lastEnc[o.Fn]
+	var enc *Enc = o.Enc
 	if enc == nil {
 		return "no replay: encoding not available", false
 	}
